@@ -100,6 +100,8 @@ type Sim struct {
 // disabled.
 var mandatory = map[string]bool{
 	"worker.wake":         true,
+	"worker.start":        true,
+	"Shutdown":            true,
 	"runWith.afterSignal": true,
 	"task.start":          true,
 	"call.return":         true,
